@@ -4,7 +4,7 @@ use super::workload::{hostile, Sizes};
 use super::Monitor;
 use crate::core::*;
 use crate::sut;
-use crate::val::{Outcome, ALL_EV};
+use crate::val::{Ev, Outcome, ALL_EV};
 
 pub struct C02;
 
@@ -25,6 +25,78 @@ impl Monitor for C02 {
             hostile(ctx, ev, &sz, "", &mut |ctx, case| {
                 ctx.check(&case, &|c, st| self.judge(c, st));
             });
+        }
+        // Long inputs. The bound is linear in the length, so work that grows faster only shows once the
+        // input is long enough for the growth to overtake the generous constant (256 steps per
+        // character): argument lists of 500, 2000 and 8000 members in ascending, descending, constant,
+        // zigzag and shuffled order (seeded change C02-r9: the median kept in order by insertion, n^2/2
+        // steps for sorted data), the repetition workload (nests, chains and lists of up to 1000
+        // constructs), digit runs, white space and sign runs of thousands of characters.
+        for ev in ALL_EV {
+            let z = crate::val::Val::zero(ev);
+            let mut longs: Vec<(String, String)> = vec![];
+            if crate::syntax::Func::Max.available(ev) {
+                let mut names = vec!["min", "max", "avg", "med", "median"];
+                if ev == Ev::I64 {
+                    names.extend(["gcd", "lcm"]);
+                }
+                let mut rng = ctx.rng(&format!("long-lists/{}", ev.name()), 0);
+                for name in names {
+                    for n in [500usize, 2000, 8000] {
+                        for wide in [false, true] {
+                            let val = |k: usize| -> String {
+                                if name == "lcm" {
+                                    ((k % 6) + 1).to_string()
+                                } else if wide {
+                                    if ev == Ev::I64 { format!("{}", 100_000 + k) } else { format!("{}.5", 100_000 + k) }
+                                } else {
+                                    ((k * 10 / n) % 10).to_string()
+                                }
+                            };
+                            let asc: Vec<String> = (0..n).map(val).collect();
+                            let mut shuffled = asc.clone();
+                            rng.shuffle(&mut shuffled);
+                            let orders: Vec<(&str, Vec<String>)> = vec![
+                                ("ascending", asc.clone()),
+                                ("descending", asc.iter().rev().cloned().collect()),
+                                ("constant", vec![val(n / 2); n]),
+                                ("zigzag", (0..n).map(|k| if k % 2 == 0 { val(k / 2) } else { val(n - 1 - k / 2) }).collect()),
+                                ("shuffled", shuffled),
+                            ];
+                            for (o, list) in orders {
+                                longs.push((format!("{} of {} {} {}", name, n, o, if wide { "six-digit values" } else { "one-digit values" }), format!("{}({})", name, list.join(","))));
+                            }
+                        }
+                    }
+                }
+            }
+            for (fam, k, t) in crate::gen::repetitions(ev, crate::gen::rep_cap(&ctx.config)) {
+                if k >= 100 {
+                    longs.push((format!("{} x{}", fam, k), t));
+                }
+            }
+            for n in [1000usize, 10_000, 60_000] {
+                longs.push((format!("{} digits", n), "7".repeat(n)));
+                longs.push((format!("{} blanks", n), format!("1{}+1", " ".repeat(n))));
+                longs.push((format!("{} fraction digits", n), format!("0.{}", "3".repeat(n))));
+            }
+            for n in [300usize, 400] {
+                longs.push((format!("{} prefix signs", n), format!("{}1", "-".repeat(n))));
+                longs.push((format!("{} superscript digits", n), format!("2{}", "⁰".repeat(n))));
+            }
+            for (fam, t) in longs {
+                if ctx.mine() {
+                    let nchars = t.chars().count();
+                    ctx.check(&Case::new(ev, "long", &t, z).with_extra(&fam), &|c, st| {
+                        let v = self.judge(c, st);
+                        if let Verdict::Pass { .. } = v {
+                            st.inc("long_inputs_within_budget");
+                            st.max("max_input_chars", nchars as f64);
+                        }
+                        v
+                    });
+                }
+            }
         }
     }
     fn judge(&self, case: &Case, st: &mut Stats) -> Verdict {
@@ -70,7 +142,7 @@ impl Monitor for C02 {
         ]
     }
     fn floors(&self, _t: Tier) -> Vec<(String, u64)> {
-        vec![("passed".into(), 10_000)]
+        vec![("passed".into(), 10_000), ("long_inputs_within_budget".into(), 1_000)]
     }
 }
 
